@@ -33,7 +33,7 @@ pub mod flume {
     impl Sender<StatType> {
         #[verifier::external_body]
         pub fn send(&mut self, x: StatType) -> (r: Result<(), SendErr>)
-            requires x matches StatType::Error(m) ==> m.sortable // [C04] an error message must lead with its offset
+            requires x matches StatType::Error(m) ==> m.sortable // [C04][C05] an error message must lead with its offset (the end-of-run sorter parses it and panics otherwise)
             ensures r.is_ok(), final(self).log@ == old(self).log@.push(x)
         { unimplemented!() }
     }
